@@ -69,7 +69,7 @@ def run(ctx):
     graph = F.XGraph(ideal.edges)
     dev_escaping = 0
     for d in devesc:
-        dev_escaping += F.x_add_cases(cases, graph, devesc[d])
+        dev_escaping += F.x_add_cases(cases, graph, devesc[d], limit=800 if quick else None)
     # 3. replay every enumerated archive on every real extractor (tar.gz; the HTTP API's extractor also as plain tar)
     tot = {"cases": 0, "mismatches": 0, "escapes": 0, "extract_errors": 0, "extract_ok": 0}
     per_site, benign_all, sample = {}, [], None
